@@ -6,6 +6,22 @@ HOOK_COMMITS = ["ca6d3b8", "a1d2aab"]
 
 # id -> (technique, level text, level note, design ref)
 CLAIMED = {
+ "C03": ("bounded exhaustive product of file layouts x mutating operations on real files; byte-level physical-line oracle (no parser): common prefix/suffix of lines plus the edit shape allowed per operation class",
+         "For every (layout, operation) where the command succeeds, the bytes before and after are compared line by line: every original line must survive byte for byte (text and line ending) in order; additions must be one contiguous block; stop/switch may only replace the placeholder run by one token and append text to the entry's last line; pause --extend may only replace the duration token; a final unterminated line may only gain a line ending when lines follow it.",
+         "Trusted: the physical-line splitter and the per-class edit shapes (taken from the statement). Quick uses every 13th layout of the formatting product.",
+         "DESIGN.md §4 C03"),
+ "C05": ("bounded exhaustive product of valid and invalid files (every single fault-catalogue edit of 13 files) x 87 commands incl. failure-directed ones, all through the complete CLI with real exit status and real write path",
+         "For every (file, command): exit 0 implies the file on disk parses without errors (klog and reference); exit != 0 implies identical bytes, an error message, and no other file in the directory; a panic is a violation. Multi-step commands whose second step fails are included.",
+         "Trusted: specmodel (lenient reading of klog's own don't-care zones). I/O faults and crash points are outside the property's quantifier.",
+         "DESIGN.md §4 C05"),
+ "C11": ("bounded exhaustive product of per-record style combinations (incl. ties and whitespace-only lines) x commands x configurations; independent style inspector on raw bytes; determinism decided by exploring every map-iteration order within a deviation bound on the instrumented build",
+         "For every (file, command, configuration): a valid command must succeed, the result must be valid, every inserted line's ending and indentation, every generated date separator, clock convention, dash spacing and placeholder length must be a style the target record exhibits, else one the other records use, else the default, unless an explicit value or configured preference applies. Determinism: a fixed stride of cases is re-executed under every map iteration order within the bound and must yield identical bytes.",
+         "Trusted: the style inspector (generous reading of 'exhibits'), cmdmodel.go for must-succeed, vrt.MapSeq owning all map ranges.",
+         "DESIGN.md §4 C11"),
+ "C17": ("exhaustive sweep of all 1440 clock minutes x day kinds x roundings x date selections x record layouts x {start, stop, switch} and total --now, against an independent rounding/shift/fallback model",
+         "Every minute of the day is tried for every combination; the written time must denote exactly the rounded instant relative to the target record's date, stop's fallback must follow the documented rule, --now totals must equal the reference closing, and whenever the time is unrepresentable or a range cannot be closed the command must fail with a message and leave the file untouched - never crash, never write another time.",
+         "Trusted: cmdmodel.go (rounding: nearest multiple, ties up; shift by +-24h; representable range) and specmodel.CloseAt.",
+         "DESIGN.md §4 C17"),
  "C04": ("explicit-state search over command histories (state = file bytes): all command sequences up to depth 3/4 over a 72-command alphabet from 12 initial files, plus all pause tick sequences; every transition compared with an abstract record-list model",
          "Every transition of the explored history graph executes the real command on a real file (first command and a fixed stride through the complete CLI, the rest through the command structs on the real context) and is compared with the abstract model applied to the reference reading of the file before: success/failure, failure leaves the bytes untouched, success yields exactly the predicted records (values, summaries, order, chronological position of new records) under the reference parser, and klog re-reads its own output.",
          "Trusted: the abstract command model (cmdmodel.go) and specmodel. Depth 3 (quick) / 4 (thorough); fixed clock.",
